@@ -33,7 +33,8 @@ RULE = ("cases are conjunctions (1..4) of alternatives (1..3) of relations {name
         "negated and plain architectures in any mixture, 1..3 "
         "restriction groups of 1..3 possibly negated profiles); mappings filled in 10 key orders; "
         "structures reached by editing in place a list that was formatted just before (4 ways); "
-        "long fields of 255..5000 relations or alternatives. Non-trivial = some single relation "
+        "long fields of 255..5000 relations or alternatives; cases run after an earlier parse of an "
+        "unreadable field (warnings recorded or raised as errors). Non-trivial = some single relation "
         "carries at least 3 of the 4 optional parts; distinct = distinct canonical JSON")
 ASSUMPTIONS = [
     "expected parse result is the generated structure itself (no model of the parser)",
@@ -306,7 +307,25 @@ def check(case):
     return res
 
 
+GARBAGE = ["foo (= 1", "a b c (>= 1) [", "?? <", "x (>> 1) [amd64", "foo bar", "n (== 1), ,"]
+
+
+def earlier_failure(kind):
+    """An earlier call in the same process that went wrong - a field the parser cannot read,
+    with warnings turned into errors (python -W error) or merely recorded - must leave no trace
+    in later calls."""
+    text = GARBAGE[kind % len(GARBAGE)]
+    with warnings.catch_warnings(record=(kind // len(GARBAGE)) % 2 == 0):
+        warnings.simplefilter("always" if (kind // len(GARBAGE)) % 2 == 0 else "error")
+        try:
+            PkgRelation.parse_relations(text)
+        except Warning:
+            pass
+
+
 def check_expanded(case):
+    if isinstance(case.get("after_failure"), int) and case["after_failure"] > 0:
+        earlier_failure(case["after_failure"] - 1)
     rels = to_library(case)
     exp = to_plain(case)
     mode = case.get("recycle")
@@ -373,6 +392,8 @@ def check_expanded(case):
         labels.add("mapping-filled-in-another-key-order")
     if case.get("recycle"):
         labels.add("list-edited-in-place-after-an-earlier-str:%s" % case["recycle"])
+    if case.get("after_failure"):
+        labels.add("after-an-unreadable-field" + (":warnings-as-errors" if ((case["after_failure"] - 1) // len(GARBAGE)) % 2 else ""))
     best = 0
     allr = [r for alts in case["rels"] for r in alts]
     for r in allr:
@@ -454,6 +475,10 @@ def enum_cases():
         for k in range(1, 10):
             yield {"rels": [[fixed(m1, "p1")]], "korder": k}
             yield {"rels": [[fixed(m1, "p1"), fixed(masks[(k * 7) % 16], "p2")]], "korder": k}
+    # after an earlier call that failed (12 kinds: 6 unreadable fields x warnings recorded / raised)
+    for m1 in masks:
+        for f in range(1, 13):
+            yield {"rels": [[fixed(m1, "p1")], [fixed(masks[(f * 5) % 16], "p2")]], "after_failure": f}
     # long fields: hundreds and thousands of relations / alternatives (Installed-Build-Depends of
     # a .buildinfo easily has several hundred)
     for n in (255, 256, 257, 258, 300, 1000, 5000):
@@ -528,8 +553,10 @@ def relation_s(draw):
                 draw(restr_s) if mask[3] else None)
 
 
-def _case(rels, k, rec):
+def _case(rels, k, rec, fail=0):
     c = {"rels": rels}
+    if fail:
+        c["after_failure"] = fail
     if k:
         c["korder"] = k
     if rec:
@@ -540,7 +567,8 @@ def _case(rels, k, rec):
 case_s = st.builds(_case,
                    st.lists(st.lists(relation_s(), min_size=1, max_size=3), min_size=1, max_size=4),
                    st.sampled_from([0, 0, 0, 1, 2, 3, 4, 5, 6, 7, 8, 9]),
-                   st.sampled_from([0, 0, 0, 1, 2, 3, 4]))
+                   st.sampled_from([0, 0, 0, 1, 2, 3, 4]),
+                   st.sampled_from([0] * 8 + list(range(1, 13))))
 
 
 def sources(tier):
